@@ -3,6 +3,8 @@ package main
 // Top-level verification of one function under contract; obligation discharge with generator-side instantiation.
 
 import (
+	"go/token"
+	"regexp"
 	"fmt"
 	"go/ast"
 	"go/types"
@@ -1677,6 +1679,9 @@ func verifyWriters(p *Program) *FuncReport {
 		}
 		scan(fn, k)
 	}
+	for _, oi := range p.ObjInvs {
+		rep.Results = append(rep.Results, p.checkObjInv(oi, rep))
+	}
 	for _, ws := range p.Writers {
 		r := &OblResult{Name: "writers#" + ws.Field, Func: packageKey, Kind: "writers", Tags: ws.Tags, Status: "proved", Backend: "frame-scan", Sites: 1,
 			Src: "only " + strings.Join(ws.Allowed, ", ") + " store to " + ws.Field}
@@ -1703,4 +1708,245 @@ func verifyWriters(p *Program) *FuncReport {
 		rep.Results = append(rep.Results, r)
 	}
 	return rep
+}
+
+
+// checkObjInv discharges the side conditions of an object-invariant declaration by a scan of the whole package:
+//  1. encapsulation: the struct's fields are read or written, and objects of the type are allocated, only inside the
+//     type's own methods and the listed constructors;
+//  2. preservation: every method / constructor either has a contract whose postconditions contain every listed predicate
+//     (for the receiver, resp. the result) unconditionally, or writes none of the fields and element arrays the
+//     predicates mention (inferred write set);
+//  3. no re-entry: methods call only methods of the type or functions that write none of those locations.
+func (p *Program) checkObjInv(oi *ObjInv, rep *FuncReport) *OblResult {
+	r := &OblResult{Name: "objinv#" + oi.Type, Func: packageKey, Kind: "objinv", Tags: oi.Tags, Status: "proved", Backend: "frame-scan", Sites: 0,
+		Src: "object invariant of " + oi.Type + " (" + strings.Join(oi.Preds, ", ") + "): fields encapsulated, established by " + strings.Join(oi.Ctors, ", ") + ", preserved by every method"}
+	var problems []string
+	var named *types.Named
+	if tn, ok := p.SSA.Members[oi.Type].(*ssa.Type); ok {
+		named, _ = tn.Type().(*types.Named)
+	}
+	if named == nil {
+		rep.Errors = append(rep.Errors, "anchor-lost: objinv: type "+oi.Type+" not found")
+		r.Status = "error"
+		return r
+	}
+	st, _ := named.Underlying().(*types.Struct)
+	if st == nil {
+		rep.Errors = append(rep.Errors, "anchor-lost: objinv: "+oi.Type+" is not a struct")
+		r.Status = "error"
+		return r
+	}
+	for _, c := range oi.Ctors {
+		if p.FuncByKey[c] == nil {
+			rep.Errors = append(rep.Errors, "anchor-lost: objinv "+oi.Type+": constructor "+c+" not found")
+		}
+	}
+	// locations the predicates talk about
+	inv := map[string]bool{}
+	for _, pn := range oi.Preds {
+		pr := p.Preds[pn]
+		if pr == nil {
+			rep.Errors = append(rep.Errors, "anchor-lost: objinv "+oi.Type+": predicate "+pn+" not found")
+			continue
+		}
+		for i := 0; i < st.NumFields(); i++ {
+			f := st.Field(i)
+			re := regexp.MustCompile(`\.` + regexp.QuoteMeta(f.Name()) + `\b`)
+			used := false
+			for _, c := range pr.Clauses {
+				if re.MatchString(c.Src) {
+					used = true
+				}
+			}
+			if !used {
+				continue
+			}
+			for _, l := range leaves(f.Type()) {
+				inv["F:"+oi.Type+"."+f.Name()+l.path] = true
+			}
+			if sl, ok := f.Type().Underlying().(*types.Slice); ok {
+				for _, l := range leaves(sl.Elem()) {
+					inv["E:"+typeName(sl.Elem())+l.path] = true
+				}
+			}
+		}
+	}
+	invField := func(f *types.Var) bool {
+		for _, l := range leaves(f.Type()) {
+			if inv["F:"+oi.Type+"."+f.Name()+l.path] {
+				return true
+			}
+		}
+		return false
+	}
+	scalarField := func(f *types.Var) bool {
+		_, ok := f.Type().Underlying().(*types.Basic)
+		return ok
+	}
+	onlyLoaded := func(fa *ssa.FieldAddr) bool {
+		refs := fa.Referrers()
+		if refs == nil {
+			return false
+		}
+		for _, u := range *refs {
+			switch t := u.(type) {
+			case *ssa.UnOp:
+				if t.Op != token.MUL {
+					return false
+				}
+			case *ssa.DebugRef:
+			default:
+				return false
+			}
+		}
+		return true
+	}
+	isStruct := func(t types.Type) bool {
+		if pt, ok := t.Underlying().(*types.Pointer); ok {
+			t = pt.Elem()
+		}
+		n, ok := t.(*types.Named)
+		return ok && n.Obj() == named.Obj()
+	}
+	// which members are called from outside the type
+	calledFromOutside := map[string]bool{}
+	for _, fn := range p.FuncByKey {
+		if isSpecFile(p, fn) || p.memberOf(fn, oi) {
+			continue
+		}
+		for _, b := range fn.Blocks {
+			for _, in := range b.Instrs {
+				if ci, ok := in.(ssa.CallInstruction); ok {
+					if callee := ci.Common().StaticCallee(); callee != nil && p.inPackage(callee) && p.memberOf(callee, oi) {
+						calledFromOutside[funcKey(callee)] = true
+					}
+				}
+			}
+		}
+	}
+	for k, fn := range p.FuncByKey {
+		if fn.Parent() != nil || isSpecFile(p, fn) {
+			continue
+		}
+		member := p.memberOf(fn, oi)
+		var walk func(f *ssa.Function)
+		walk = func(f *ssa.Function) {
+			for _, b := range f.Blocks {
+				for _, in := range b.Instrs {
+					switch t := in.(type) {
+					case *ssa.FieldAddr:
+						if !member && isStruct(t.X.Type()) && invField(st.Field(t.Field)) {
+							// reading a scalar the invariant mentions is harmless; a store, or getting hold of a slice,
+							// map or pointer whose target the invariant constrains, is not
+							if !scalarField(st.Field(t.Field)) || !onlyLoaded(t) {
+								problems = append(problems, k+" can write "+oi.Type+"."+st.Field(t.Field).Name()+" (or what it refers to) from outside the type")
+							}
+						}
+					case *ssa.Field:
+						if !member && isStruct(t.X.Type()) && invField(st.Field(t.Field)) && !scalarField(st.Field(t.Field)) {
+							problems = append(problems, k+" takes "+oi.Type+"."+st.Field(t.Field).Name()+" out of the type")
+						}
+					case *ssa.Alloc:
+						if !member && isStruct(t.Type()) {
+							problems = append(problems, k+" allocates a "+oi.Type)
+						}
+					case ssa.CallInstruction:
+						if !member {
+							continue
+						}
+						// no re-entry through foreign code that writes invariant locations
+						callee := t.Common().StaticCallee()
+						if callee == nil {
+							if _, isB := t.Common().Value.(*ssa.Builtin); !isB {
+								problems = append(problems, k+" makes a dynamic call")
+							}
+							continue
+						}
+						if p.inPackage(callee) && !p.memberOf(callee, oi) {
+							e := p.effectsOf(callee)
+							if e.top {
+								problems = append(problems, k+" calls "+funcKey(callee)+" whose effects are unknown")
+							}
+							for key := range e.keys {
+								if inv[key] {
+									problems = append(problems, k+" calls "+funcKey(callee)+" which writes "+key)
+								}
+							}
+						}
+					}
+				}
+			}
+			for _, af := range f.AnonFuncs {
+				walk(af)
+			}
+		}
+		walk(fn)
+		if !member {
+			continue
+		}
+		r.Sites++
+		if !calledFromOutside[k] {
+			isC := false
+			for _, cn := range oi.Ctors {
+				if cn == k {
+					isC = true
+				}
+			}
+			if !isC {
+				continue // helper used only inside the type: part of its callers' proofs
+			}
+		}
+		// preservation
+		c := p.Contracts[k]
+		isCtor := false
+		for _, cn := range oi.Ctors {
+			if cn == k {
+				isCtor = true
+			}
+		}
+		have := map[string]bool{}
+		if c != nil {
+			for _, cl := range c.Ensures {
+				for _, pn := range oi.Preds {
+					if strings.HasPrefix(cl.Label, pn+".") && !hasTag(cl.Tags, "TRUSTED") {
+						have[pn] = true
+					}
+				}
+			}
+		}
+		all := true
+		for _, pn := range oi.Preds {
+			if !have[pn] {
+				all = false
+			}
+		}
+		if all {
+			continue
+		}
+		if isCtor {
+			problems = append(problems, "constructor "+k+" has no postcondition establishing "+strings.Join(oi.Preds, ", "))
+			continue
+		}
+		if c != nil && c.HasMod && len(c.Modifies) == 0 {
+			continue // modifies nothing (its frame obligation is proved separately)
+		}
+		e := p.effectsOf(fn)
+		if e.top {
+			problems = append(problems, "method "+k+" has unknown effects and no postcondition re-establishing the invariant")
+			continue
+		}
+		for key := range e.keys {
+			if inv[key] {
+				problems = append(problems, "method "+k+" writes "+key+" and has no postcondition re-establishing the invariant")
+			}
+		}
+	}
+	sort.Strings(problems)
+	if len(problems) > 0 {
+		r.Status = "refuted"
+		r.FailSite = problems[0]
+		r.Output = strings.Join(problems, "\n")
+	}
+	return r
 }
